@@ -1,5 +1,6 @@
 import Jap.Core.Cli
 import Jap.Lemmas.Cli
+import Jap.Gen.CliTables
 /-!
 # C12 — auto_cli calls the component with exactly the parsed values
 
@@ -23,8 +24,17 @@ predicate on the signature), for all signatures, all given values, all bodies, b
 namespace Jap.Props.C12
 open Jap.Cli
 
-/-- a method's own reserved name: `subcommand_cfg.pop("config", None)` -/
-def noConfigParam (sig : Sig) : Bool := sig.all (fun p => p.name != "config")
+/-! ## the literals of `_cli.py` the model is written against (regenerated from the source on every run) -/
+
+/-- `_run_component` pops `config` and `subcommand` from the namespace, then the chosen subcommand's namespace, and
+    `config` from that; the parser has `--help`, `--config`, `--print_config` before the component is added; a method's
+    subparser gets `--config` unless the method has a parameter `config` -/
+theorem C12_tables_pinned :
+    Jap.Gen.runComponentPops
+      = [("cfg", "config"), ("cfg", "subcommand"), ("cfg", "$subcommand"), ("subcommand_cfg", "config")]
+    ∧ Jap.Gen.autoCliBaseDests = baseOptions
+    ∧ Jap.Gen.methodConfigGuard = ["config"]
+    ∧ reservedNames = ["config", "subcommand"] := by decide
 
 /-! ## functions -/
 
@@ -34,27 +44,29 @@ theorem C12_binding (body : Body) (asPos : Bool) (f : String) (sig : Sig) (g : G
     (hd : distinctNames sig = true) (hr : noReserved sig = true)
     (h : autoCli body asPos (.func f sig) g = .ok r) :
     ∃ args, Cli.bind sig g.top = some args ∧ r.calls = [⟨.func f, args⟩] ∧ r.ret = body (.func f) args := by
-  simp only [autoCli, parseComp] at h
+  simp only [autoCli] at h
   split at h
   · cases h
   · rename_i cfg hcfg
-    split at hcfg
-    · cases hcfg
-    · split at hcfg
-      · cases hcfg
-      · rename_i vals hf
-        cases hcfg
-        obtain ⟨_, hkeys, _⟩ := fill_ok asPos sig g.top vals hf
-        have hc : "config" ∉ vals.map (·.1) := hkeys ▸ names_of_noReserved sig hr _ "config" (by decide)
-        have hs : "subcommand" ∉ vals.map (·.1) := hkeys ▸ names_of_noReserved sig hr _ "subcommand" (by decide)
-        rw [runComponent_func] at h
-        simp only [Bool.true_or, if_true] at h
-        rw [dropKey_append, dropKey_single_eq, List.nil_append, dropKey_top _ _ hc, dropKey_top _ _ hs] at h
-        split at h
-        · cases h
-        · rename_i a hb
-          cases h
-          exact ⟨a, bind_of_fill_pyBind asPos sig g.top vals a hd hf hb, rfl, rfl⟩
+    exact run_func body asPos true f sig g cfg r hd hr hcfg h
+
+/-- PROGRESS (the theorems above are not vacuous): when only offered parameters are given, every required one is given,
+    no name collides with an option of the CLI and no private parameter lacks a default, `auto_cli` does run the function -/
+theorem C12_runs (body : Body) (asPos : Bool) (f : String) (sig : Sig) (g : Given)
+    (hd : distinctNames sig = true) (hr : noReserved sig = true) (hcol : collides baseOptions sig = false)
+    (hgiven : ∀ k ∈ g.top.map (·.1), k ∈ (sig.filter (fun p => !skipped p)).map (·.name))
+    (hreq : ∀ p ∈ sig, isVar p = false → effDefault p = .none → (lookup p.name g.top).isSome = true)
+    (hpriv : ∀ p ∈ sig, skipped p = true → isVar p = false → p.dflt.isSome = true) :
+    ∃ args, Cli.bind sig g.top = some args
+      ∧ autoCli body asPos (.func f sig) g = .ok ⟨[⟨.func f, args⟩], body (.func f) args⟩ := by
+  obtain ⟨vals, a, hfill, hbind⟩ := fill_pyBind_ok asPos sig g.top hd hgiven hreq hpriv
+  obtain ⟨_, hkeys, _⟩ := fill_ok asPos sig g.top vals hfill
+  have hc : "config" ∉ vals.map (·.1) := hkeys ▸ names_of_noReserved sig hr _ "config" (by decide)
+  have hs : "subcommand" ∉ vals.map (·.1) := hkeys ▸ names_of_noReserved sig hr _ "subcommand" (by decide)
+  refine ⟨a, bind_of_fill_pyBind asPos sig g.top vals a hd hfill hbind, ?_⟩
+  simp only [autoCli, parseComp, hcol, Bool.false_eq_true, if_false, hfill, Bool.true_or, if_true]
+  rw [runComponent_func, dropKey_append, dropKey_single_eq, List.nil_append, dropKey_top _ _ hc, dropKey_top _ _ hs,
+    hbind]
 
 /-- a parameter without default (and not `Optional`) that is not given: an error, never a call -/
 theorem C12_required (body : Body) (asPos : Bool) (f : String) (sig : Sig) (g : Given) (p : Param)
@@ -94,26 +106,6 @@ theorem C12_optional_none_arg (asPos : Bool) (sig : Sig) (p : Param)
   rw [← this]
   exact List.mem_map.mpr ⟨p, List.mem_filter.mpr ⟨hp, by simp [hs]⟩, rfl⟩
 
-theorem mem_of_mapO {α β : Type} (f : α → Option β) :
-    ∀ (l : List α) (bs : List β), mapO f l = some bs → ∀ a ∈ l, ∃ b, f a = some b ∧ b ∈ bs
-  | [], _, _, a, ha => by cases ha
-  | x :: r, bs, h, a, ha => by
-    simp only [mapO] at h
-    cases hf : f x with
-    | none => simp [hf] at h
-    | some b =>
-      simp only [hf] at h
-      cases hr : mapO f r with
-      | none => simp [hr] at h
-      | some bs' =>
-        simp only [hr] at h
-        have hb : bs = b :: bs' := by cases h; rfl
-        subst hb
-        rcases List.mem_cons.mp ha with rfl | ha'
-        · exact ⟨b, hf, by simp⟩
-        · obtain ⟨b', h1, h2⟩ := mem_of_mapO f r bs' hr a ha'
-          exact ⟨b', h1, by simp [h2]⟩
-
 /-- … and when it is not given the component is called with `None` for it -/
 theorem C12_optional_none (body : Body) (asPos : Bool) (f : String) (sig : Sig) (g : Given) (r : Run) (p : Param)
     (hd : distinctNames sig = true) (hres : noReserved sig = true)
@@ -142,10 +134,14 @@ theorem C12_class (body : Body) (asPos : Bool) (c : String) (init : Sig) (m0 : M
     ∃ m md a1 a2, g.method = some m ∧ md ∈ m0 :: ms ∧ md.name = m
       ∧ Cli.bind init g.top = some a1 ∧ Cli.bind md.sig g.sub = some a2
       ∧ r.calls = [⟨.init c, a1⟩, ⟨.method c m, a2⟩] ∧ r.ret = body (.method c m) a2 := by
-  simp only [autoCli, parseComp] at h
+  simp only [autoCli] at h
   split at h
   · cases h
   · rename_i cfg hcfg
+    -- at the root a method called `config` cannot be chosen (parse_args dies): drop it from the list of candidates
+    have hnc := method_not_config_of_root asPos c init m0 ms g cfg hcfg
+    -- re-run the general lemma with the name hypothesis restricted to the chosen method
+    simp only [parseComp] at hcfg
     split at hcfg
     · cases hcfg
     split at hcfg
@@ -169,15 +165,13 @@ theorem C12_class (body : Body) (asPos : Bool) (c : String) (init : Sig) (m0 : M
     · cases hcfg
     rename_i sub hfs
     cases hcfg
-    -- facts
     have hmdmem : md ∈ m0 :: ms := List.mem_of_find?_eq_some hfind
     have hmdname : md.name = m := by simpa using List.find?_some hfind
     obtain ⟨_, hkeys, _⟩ := fill_ok asPos init g.top vals hf
     obtain ⟨_, hskeys, _⟩ := fill_ok asPos md.sig g.sub sub hfs
     have hc : "config" ∉ vals.map (·.1) := hkeys ▸ names_of_noReserved init hr _ "config" (by decide)
     have hs : "subcommand" ∉ vals.map (·.1) := hkeys ▸ names_of_noReserved init hr _ "subcommand" (by decide)
-    have hmc : m ≠ "config" := by
-      intro e; subst e; simp at hcrash
+    have hmc : m ≠ "config" := fun e => hnc (e ▸ hm)
     have hmnv : m ∉ vals.map (·.1) := by
       intro hmem
       obtain ⟨e, he, hek⟩ := List.mem_map.mp hmem
@@ -201,12 +195,6 @@ theorem C12_class (body : Body) (asPos : Bool) (c : String) (init : Sig) (m0 : M
       intro e he
       have : e.1 ≠ "subcommand" := fun h' => hs (List.mem_map.mpr ⟨e, he, h'⟩)
       simp [this]
-    have hnoc : (md.sig.any fun p => p.name == "config") = false := by
-      have := hrm md hmdmem
-      simp only [noConfigParam, List.all_eq_true, bne_iff_ne, ne_eq] at this
-      simp only [List.any_eq_false, beq_iff_eq]
-      exact fun p hp => this p hp
-    -- run
     have hS : ((if (!(md.sig.any fun p => p.name == "config") && !(parserOfSig asPos md.sig).isEmpty) = true
           then [([m, "config"], g.cfgSub)] else []) : Cfg) = [] ∨
         ∃ c2, ((if (!(md.sig.any fun p => p.name == "config") && !(parserOfSig asPos md.sig).isEmpty) = true
@@ -215,7 +203,7 @@ theorem C12_class (body : Body) (asPos : Bool) (c : String) (init : Sig) (m0 : M
       · exact Or.inr ⟨_, rfl⟩
       · exact Or.inl rfl
     simp only [Bool.true_or, if_true, hfilter] at h
-    rw [runComponent_cls body c init (m0 :: ms) vals sub m g.cfgTop _ hS hc hs hmnv hmc hms hsc] at h
+    rw [runComponent_cls body c init (m0 :: ms) vals sub m _ _ (Or.inr ⟨g.cfgTop, rfl⟩) hS hc hs hmnv hmc hms hsc] at h
     simp only [hfind] at h
     split at h
     · cases h
@@ -232,28 +220,11 @@ theorem C12_class_plain (body : Body) (asPos : Bool) (c : String) (init : Sig) (
     (hd : distinctNames init = true) (hr : noReserved init = true)
     (h : autoCli body asPos (.cls c init []) g = .ok r) :
     ∃ args, Cli.bind init g.top = some args ∧ r.calls = [⟨.init c, args⟩] ∧ r.ret = body (.init c) args := by
-  simp only [autoCli, parseComp] at h
+  simp only [autoCli] at h
   split at h
   · cases h
   · rename_i cfg hcfg
-    split at hcfg
-    · cases hcfg
-    · split at hcfg
-      · cases hcfg
-      · rename_i vals hf
-        cases hcfg
-        obtain ⟨_, hkeys, _⟩ := fill_ok asPos init g.top vals hf
-        have hc : "config" ∉ vals.map (·.1) := hkeys ▸ names_of_noReserved init hr _ "config" (by decide)
-        have hs : "subcommand" ∉ vals.map (·.1) := hkeys ▸ names_of_noReserved init hr _ "subcommand" (by decide)
-        simp only [Bool.true_or, if_true, runComponent] at h
-        rw [dropKey_append, dropKey_single_eq, List.nil_append, dropKey_top _ _ hc, lookup_top,
-          lookup_none_of_not_mem _ _ hs, dropKey_top _ _ hs] at h
-        simp only at h
-        split at h
-        · cases h
-        · rename_i a hb
-          cases h
-          exact ⟨a, bind_of_fill_pyBind asPos init g.top vals a hd hf hb, rfl, rfl⟩
+    exact run_cls_plain body asPos true c init g cfg r hd hr hcfg h
 
 /-- a constructor parameter without default that is not given, or a parameter of the chosen method without default
     that is not given: an error, never a construction or a call -/
@@ -298,6 +269,47 @@ theorem C12_class_required (body : Body) (asPos : Bool) (c : String) (init : Sig
       · rw [he] at hcfg
         cases hcfg
 
+/-! ## lists and nested dicts of components -/
+
+/-- `auto_cli` with a dict (or list) of components runs exactly the component that the chain of subcommands selects, on
+    exactly the namespace of that component's own parser — for every dict whose keys are the leaves of a nested dict -/
+theorem C12_dispatch (body : Body) (asPos : Bool) (comps : Comps) (path : Key) (g : Given) (r : Run)
+    (hwk : wellKeyed comps = true) (h : autoCliTree body asPos comps path g = .ok r) :
+    ∃ comp c, lookupComp path comps = some comp ∧ parseComp asPos false comp g = .ok c
+      ∧ runComponent body comp c = .ok r := by
+  cases hp : parseTree asPos comps path g with
+  | error e => simp [autoCliTree, hp] at h
+  | ok cfg =>
+    obtain ⟨comp, c, h1, h2, h3⟩ := dispatch body asPos comps path g cfg hwk hp
+    exact ⟨comp, c, h1, h2, h3 ▸ h⟩
+
+/-- a function in a dict / list: called exactly once with `bind sig given`, its value returned -/
+theorem C12_tree_binding (body : Body) (asPos : Bool) (comps : Comps) (path : Key) (f : String) (sig : Sig)
+    (g : Given) (r : Run) (hwk : wellKeyed comps = true) (hsel : lookupComp path comps = some (.func f sig))
+    (hd : distinctNames sig = true) (hr : noReserved sig = true)
+    (h : autoCliTree body asPos comps path g = .ok r) :
+    ∃ args, Cli.bind sig g.top = some args ∧ r.calls = [⟨.func f, args⟩] ∧ r.ret = body (.func f) args := by
+  obtain ⟨comp, c, h1, h2, h3⟩ := C12_dispatch body asPos comps path g r hwk h
+  rw [hsel] at h1
+  cases h1
+  exact run_func body asPos false f sig g c r hd hr h2 h3
+
+/-- a class with methods in a dict / list -/
+theorem C12_tree_class (body : Body) (asPos : Bool) (comps : Comps) (path : Key) (c : String) (init : Sig)
+    (m0 : Method) (ms : List Method) (g : Given) (r : Run)
+    (hwk : wellKeyed comps = true) (hsel : lookupComp path comps = some (.cls c init (m0 :: ms)))
+    (hd : distinctNames init = true) (hr : noReserved init = true)
+    (hdm : ∀ md ∈ m0 :: ms, distinctNames md.sig = true) (hrm : ∀ md ∈ m0 :: ms, noConfigParam md.sig = true)
+    (hmn : ∀ md ∈ m0 :: ms, md.name ≠ "config")
+    (h : autoCliTree body asPos comps path g = .ok r) :
+    ∃ m md a1 a2, g.method = some m ∧ md ∈ m0 :: ms ∧ md.name = m
+      ∧ Cli.bind init g.top = some a1 ∧ Cli.bind md.sig g.sub = some a2
+      ∧ r.calls = [⟨.init c, a1⟩, ⟨.method c m, a2⟩] ∧ r.ret = body (.method c m) a2 := by
+  obtain ⟨comp, cfg, h1, h2, h3⟩ := C12_dispatch body asPos comps path g r hwk h
+  rw [hsel] at h1
+  cases h1
+  exact run_cls body asPos false c init m0 ms g cfg r hd hr hdm hrm hmn h2 h3
+
 /-! ## non-vacuity: a non-trivial signature meets the hypotheses and runs -/
 
 def exBody : Body := fun t _ => match t with
@@ -327,6 +339,16 @@ example :
         { top := [("p", .tok "1")], method := some "fit", sub := [("x", .tok "5")], cfgTop := .tok "[cfg]" }
       = .ok ⟨[⟨.init "A", [("p", .tok "1"), ("q", .none), ("r", .tok "3")]⟩,
               ⟨.method "A" "fit", [("x", .tok "5"), ("y", .tok "2")]⟩], .tok "fit"⟩ := by decide
+
+/-- `{"grp": {"one": h1, "cls": A}, "misc": h1}` run as `grp cls 1 fit 5` -/
+example :
+    let h1 : Comp := .func "h1" [⟨"x", .posOrKw, some (.tok "1"), false⟩]
+    let a : Comp := .cls "A" [⟨"p", .posOrKw, .none, false⟩] [⟨"fit", [⟨"x", .posOrKw, .none, false⟩]⟩]
+    let comps : Comps := [(["grp", "one"], h1), (["grp", "cls"], a), (["misc"], h1)]
+    wellKeyed comps = true
+    ∧ autoCliTree exBody true comps ["grp", "cls"] { top := [("p", .tok "1")], method := some "fit", sub := [("x", .tok "5")] }
+      = .ok ⟨[⟨.init "A", [("p", .tok "1")]⟩, ⟨.method "A" "fit", [("x", .tok "5")]⟩], .tok "fit"⟩
+    ∧ autoCliTree exBody true comps ["misc"] { top := [] } = .ok ⟨[⟨.func "h1", [("x", .tok "1")]⟩], .tok "h1"⟩ := by decide
 
 /-! ## the full statement fails for the CLI's own names (open finding C12-reserved-names) -/
 
